@@ -73,7 +73,7 @@ func runC16(c *Ctx) {
 	rep.Meta("cases: histories of up to 6 connections between one client session cache (LRU capacity 1..3, wrapped to log Get/Put) and one or two server configurations, interleaved with SetSessionTicketKeys rotations (new key in front keeping the old ones / replace all), suite-list changes, ClientAuth changes and toggling of tickets; GMSSL (both suites) and TLS 1.2; plus ticket tampering through the session-state hook: every single-byte substitution and every truncation of a ticket, each followed by a connection. Oracle: a resumption model (set of live ticket keys, registry of issued tickets with the state they carry) classifying each connection as must-resume / must-not-resume / may; both ends' DidResume agree and match the model; a resumed session decodes under the ORIGINAL master secret (passive reference decoder over the wire + the original session's key-log line); peer certificates equal the original's; no handshake error and no panic. Distinct non-trivial = distinct (mode, history op sequence class, expected outcome).",
 		200, []string{"resumption model written from the property text", "ref TLCP decoder for GMSSL sessions"},
 		[]string{"'may' connections (configuration changed but nothing forbids resumption) are not judged on DidResume"})
-	n := c.Q(120, 3000)
+	n := c.Q(120, 12000)
 	Par(n, func(i int) { runC16History(c, i) })
 	runC16Tamper(c)
 }
